@@ -318,7 +318,13 @@ func (s *EMTState) edgeMultiComputeRecordSpecs(raw []RawType, frameIndexOfraw0 F
 		if !x.triggerFound {
 			break
 		}
-		t, u, v = u, v, FrameIndex(x.triggerInd)+frameIndexOfraw0
+		// The zero-threshold refinement can move a trigger one sample earlier than the first
+		// searchable sample; a record needs maxLookback samples before its trigger.
+		triggerInd := x.triggerInd
+		if triggerInd < maxLookback {
+			triggerInd = maxLookback
+		}
+		t, u, v = u, v, FrameIndex(triggerInd)+frameIndexOfraw0
 		recordSpec, valid := edgeMultiShouldRecord(t, u, v, s.npre, s.nsamp, s.mode)
 		if valid {
 			recordSpecs = append(recordSpecs, recordSpec)
